@@ -1,6 +1,7 @@
 """C01 — every selector returns a consistent set of distinct, valid indices."""
 import json
 import multiprocessing as mp
+import os
 import sys
 
 import numpy as np
@@ -134,6 +135,22 @@ def run(tier):
         r = core.model_check("GreedySelectorImpl.tla", "mc/GreedySelectorImpl_%s.cfg" % fam, timeout=1200)
         rep.add_mc("GreedySelectorImpl[%s] current tree" % fam, r)
     rep.cov["exhaustive"] = True
+    if tier == "thorough":
+        # optional extra (never decides the verdict): Apalache discharges the inductive invariant of the reference
+        # bookkeeping for every N <= 12 and an arbitrary scorer (spec/apalache/GreedyInd.tla)
+        import shutil, subprocess, tempfile
+        out = tempfile.mkdtemp(prefix="apa-", dir=core.scratch())
+        res = []
+        for init, length in (("Init", 0), ("IndInit", 1)):
+            try:
+                p = subprocess.run(["apalache-mc", "check", "--cinit=CInit", "--init=" + init, "--inv=IndInv", "--length=%d" % length,
+                                    "--out-dir=" + out, "GreedyInd.tla"], cwd=os.path.join(core.SPEC, "apalache"), timeout=900,
+                                   stdout=subprocess.PIPE, stderr=subprocess.STDOUT, text=True)
+                res.append("%s/length %d: %s" % (init, length, "NoError" if "The outcome is: NoError" in p.stdout else "not discharged"))
+            except Exception as e:  # noqa
+                res.append("%s/length %d: not run (%s)" % (init, length, type(e).__name__))
+        shutil.rmtree(out, ignore_errors=True)
+        rep.cov["parts"]["Apalache inductive invariant (extra)"] = res
     # (C) traces of the real code
     per = 40 if tier == "quick" else 650
     jobs = [(w, per, core.seed()) for w in range(core.NCPU)]
